@@ -56,11 +56,14 @@ const (
 	// named-start classes: S = named start letters, F = follow-ups (lookup, closeN, probes on A and B)
 	clS
 	clF
+	// X = module X letters (4 memory shapes x 36 call sequences), P = probes on A and B
+	clX
+	clP
 	nClasses
 	nBaseClasses = clVn
 )
 
-var className = [nClasses]string{"K", "r0", "N", "R", "Vn", "Vr", "Vp", "T", "O", "S", "F"}
+var className = [nClasses]string{"K", "r0", "N", "R", "Vn", "Vr", "Vp", "T", "O", "S", "F", "X", "P"}
 
 // Context variants: every step of a word is called with its own cancellable context ("cancel") or its own
 // context with a generous deadline ("deadline"), which the harness cancels after the step has returned; or
@@ -132,6 +135,12 @@ func init() {
 			classes[clS] = append(classes[clS], letter{sh, k})
 		}
 	}
+	for sh := ShXOwn; sh <= ShXImported; sh++ {
+		for _, k := range shapeKinds(sh) {
+			classes[clX] = append(classes[clX], letter{sh, k})
+		}
+	}
+	classes[clP] = []letter{{ShDirectA, KOk}, {ShDirectB, KOk}, {ShViaB, KOk}, {ShHost1P, KOk}}
 	classes[clF] = []letter{{ShLookup, KOk}, {ShCloseN, KOk}, {ShDirectA, KOk}, {ShDirectB, KOk}, {ShViaB, KOk}}
 }
 
@@ -139,10 +148,10 @@ func init() {
 
 type section struct {
 	ctxMode string // "" = default world; otherwise the context variant (and the close-on-context-done runtimes)
-	tuple  []int
-	filter string // "" | "rec-frames-0-1024" | "same-shape-rec-pair" (quick tier only, see sectionsFor)
-	count  int64  // size of the product (before the filter)
-	batch  int64
+	tuple   []int
+	filter  string // "" | "rec-frames-0-1024" | "same-shape-rec-pair" (quick tier only, see sectionsFor)
+	count   int64  // size of the product (before the filter)
+	batch   int64
 }
 
 func edgeFrame(l letter) bool { return l.Kind == KRec0 || l.Kind == KRec1024 }
@@ -186,6 +195,10 @@ func (s section) word(idx int64) (w []letter, ok bool) {
 			if isRec(l.Kind) && !edgeFrame(l) {
 				return w, false
 			}
+		}
+	case "same-shape": // the first two letters go through the same shape
+		if w[0].Shape != w[1].Shape {
+			return w, false
 		}
 	case "same-shape-rec-pair": // two recursions through the same shape (same function objects); any frame, then an edge frame
 		if w[0].Shape != w[1].Shape || !edgeFrame(w[1]) {
@@ -309,6 +322,17 @@ func sectionsFor(tier string) (secs []section, excludedByCap int64) {
 		}
 		secs = append(secs, section{tuple: t, count: size(t), batch: 1024})
 	}
+	// module-X sections: a function that calls into another instance and then exits / closes / panics / traps
+	// in the same basic block, in the four memory shapes of the exiting module; alone, after a core letter,
+	// followed by a probe of A / B, and twice through the same instance of X (thorough: and then a probe).
+	xs := []section{{tuple: []int{clX}}, {tuple: []int{clK, clX}}, {tuple: []int{clX, clP}}, {tuple: []int{clX, clX}, filter: "same-shape"}}
+	if tier == "thorough" {
+		xs = append(xs, section{tuple: []int{clX, clX, clP}, filter: "same-shape"})
+	}
+	for _, s := range xs {
+		s.count, s.batch = size(s.tuple), 1024
+		secs = append(secs, s)
+	}
 	// heavy (recursion) sections first so that they are spread over all workers before the light tail
 	sort.SliceStable(secs, func(i, j int) bool { return secs[i].recs() > secs[j].recs() })
 	return
@@ -379,10 +403,11 @@ type stepObs struct {
 	Ret   uint32
 	A, B  string
 	Reg   string // name registry: Runtime.Module of the named start instances
+	X     string // instances of module X
 }
 
 func (o stepObs) String() string {
-	return fmt.Sprintf("%s ret=%d | A{%s} | B{%s} | registry{%s}", o.Class, o.Ret, o.A, o.B, o.Reg)
+	return fmt.Sprintf("%s ret=%d | A{%s} | B{%s} | registry{%s} | X{%s}", o.Class, o.Ret, o.A, o.B, o.Reg, o.X)
 }
 
 type viol struct {
@@ -508,9 +533,9 @@ func runWordSteps(e *engineRT, word []letter, mode string, stats *childStats, pr
 			cancel()
 			w.settle()
 		}
-		got := stepObs{cl, ret, observe(w.A), observe(w.B), w.registry()}
+		got := stepObs{cl, ret, observe(w.A), observe(w.B), w.registry(), w.observeX()}
 		mcl, mret := m.step(l, k)
-		want := stepObs{mcl, mret, m.A.String(), m.B.String(), m.registry()}
+		want := stepObs{mcl, mret, m.A.String(), m.B.String(), m.registry(), m.observeX()}
 		if stats != nil {
 			stats.steps++
 			stats.hist[tag+":"+shapes[l.Shape].name+":"+cl]++
@@ -525,8 +550,8 @@ func runWordSteps(e *engineRT, word []letter, mode string, stats *childStats, pr
 		w.settle()
 		sharedCancel()
 		w.settle()
-		got := stepObs{"after-cancel", 0, observe(w.A), observe(w.B), w.registry()}
-		want := stepObs{"after-cancel", 0, m.A.String(), m.B.String(), m.registry()}
+		got := stepObs{"after-cancel", 0, observe(w.A), observe(w.B), w.registry(), w.observeX()}
+		want := stepObs{"after-cancel", 0, m.A.String(), m.B.String(), m.registry(), m.observeX()}
 		if stats != nil {
 			stats.steps++
 			stats.hist[tag+":after-cancel"]++
@@ -548,6 +573,8 @@ func diffField(got, want stepObs) string {
 		return "A:" + fieldDiff(got.A, want.A)
 	case got.Reg != want.Reg:
 		return "registry:" + fieldDiff(got.Reg, want.Reg)
+	case got.X != want.X:
+		return "X"
 	default:
 		return "B:" + fieldDiff(got.B, want.B)
 	}
@@ -583,7 +610,6 @@ type batchResult struct {
 func failing(l letter) bool {
 	return l.Kind != KOk && l.Kind != KDeepOk && l.Kind != KDeepHost && l.Kind != KOkAtomic
 }
-
 
 func hasDeepHost(w []letter) bool {
 	for _, l := range w {
@@ -843,13 +869,13 @@ func main() {
 	}
 	run.Finish(fw.Coverage{
 		Evaluations: steps, DistinctNontriv: nontriv, States: words, Transitions: steps, TracesValidated: steps,
-		Rule: "a state is a history (word) replayed on a fresh world; a transition is one executed step on one engine, compared against the model; a word is non-trivial when a failing step is followed by at least one more step; distinct = distinct (word, context variant) pairs, each run on both engines; the ctx-* sections run on runtimes WithCloseOnContextDone(true)",
+		Rule:    "a state is a history (word) replayed on a fresh world; a transition is one executed step on one engine, compared against the model; a word is non-trivial when a failing step is followed by at least one more step; distinct = distinct (word, context variant) pairs, each run on both engines; the ctx-* sections run on runtimes WithCloseOnContextDone(true)",
 		Samples: samples.List(), Exhaustive: true, Outcomes: outcomes.Map(),
 		Bounds: map[string]any{"full_alphabet": len(fullAlphabet), "core_alphabet": coreNames, "shapes": NShapes, "kinds": NKinds,
 			"class_sizes": map[string]int{"K": len(classes[clK]), "r0": len(classes[clR0]), "N": len(classes[clN]), "R": len(classes[clR]),
-				"Vn": len(classes[clVn]), "Vr": len(classes[clVr]), "Vp": len(classes[clVp]), "T": len(classes[clT]), "O": len(classes[clO]), "S": len(classes[clS]), "F": len(classes[clF])},
+				"Vn": len(classes[clVn]), "Vr": len(classes[clVr]), "Vp": len(classes[clVp]), "T": len(classes[clT]), "O": len(classes[clO]), "S": len(classes[clS]), "F": len(classes[clF]), "X": len(classes[clX]), "P": len(classes[clP])},
 			"context_variants": ctxModes,
-			"sections": secs, "max_recursion_letters_per_word": maxRecPerWord, "engines": engines},
+			"sections":         secs, "max_recursion_letters_per_word": maxRecPerWord, "engines": engines},
 		Extra: map[string]any{"words_excluded_by_recursion_cap": sp.excludedByCap, "words_run": words,
 			"distinct_model_states": len(states), "batches": nBatches},
 	}, []string{
